@@ -15,7 +15,8 @@ from ..ref import inventory as INV
 
 TEXT_STYLES = [s for s in S.STYLES]
 NAMES = ["main", "util", "mod", "with space", "ünï", "data", "x-y_z", "README", "日本"]
-DIRS = ["", "", "src", "src/sub", "docs", "a b"]
+# (one directory whose files have paths of more than 80 columns, with blanks and hyphens in them)
+DIRS = ["", "", "src", "src/sub", "docs", "a b", "a long directory name - with blanks and hyphens/that goes on for more than eighty columns - really"]
 DEFECTS = ["strip-cop", "strip-lic", "drop-licence-text", "unused-text", "junk-text", "unknown-id", "deprecated-text", "no-extension",
            "unreadable", "bad-expression", "wrong-case-id", "empty-licence-tag"]
 
@@ -41,11 +42,13 @@ def project_state(draw, compliant_bias=True, max_files=7, git=None, expr_depth=1
     use_git = draw(st.booleans()) if git is None else git
     files = []
     seen = set()
+    twin = None
     n = draw(st.integers(1, max_files))
     for i in range(n):
         style = draw(st.sampled_from(TEXT_STYLES))
         d = draw(st.sampled_from(DIRS))
-        name = draw(st.sampled_from(NAMES)) + str(i) + S.EXT_FOR_STYLE[style]
+        # mostly unique base names; sometimes the same base name in several directories
+        name = draw(st.sampled_from(NAMES)) + (str(i) if draw(st.integers(0, 2)) else "") + S.EXT_FOR_STYLE[style]
         path = f"{d}/{name}" if d else name
         if gkind == "dep5":
             path = path.replace(" ", "_")  # dep5 'Files:' is white-space separated
@@ -100,6 +103,18 @@ def project_state(draw, compliant_bias=True, max_files=7, git=None, expr_depth=1
                 if f["own"] and len(f["own"]["lic"]) == 1 and draw(st.integers(0, 2)) == 0:
                     f["para"]["lic"] = list(f["own"]["lic"])
         files.append(f)
+    if len(files) >= 2 and draw(st.integers(0, 2)) == 0:
+        # a file without any information of its own whose base name equals that of a file in another directory (which holds further files)
+        f0 = draw(st.sampled_from(files))
+        d0 = f0["path"].rsplit("/", 1)[0] if "/" in f0["path"] else ""
+        others = sorted({(g["path"].rsplit("/", 1)[0] if "/" in g["path"] else "") for g in files} - {d0})
+        if others:
+            d2 = draw(st.sampled_from(others))
+            p2 = (d2 + "/" if d2 else "") + f0["path"].rsplit("/", 1)[-1]
+            if p2 not in seen:
+                seen.add(p2)
+                files.append({"path": p2, "kind": "text", "style": f0["style"], "own": None, "dotlic": None, "table": None, "para": None, "unreadable": None, "block": False})
+                twin = (f0["path"], p2)
     if use_git:
         # .gitignore is a covered file like any other
         files.append({"path": ".gitignore", "kind": "text", "style": "python", "own": {"cop": ["SPDX-FileCopyrightText: 2020 Ignorer"], "lic": ["CC0-1.0"]},
@@ -107,7 +122,7 @@ def project_state(draw, compliant_bias=True, max_files=7, git=None, expr_depth=1
     fallback = None
     if gkind == "toml" and draw(st.integers(0, 2)) == 0:
         fallback = dict(draw(info(idpool, not compliant_bias)), prec=draw(st.sampled_from(["closest", "aggregate"])))
-    state = {"files": files, "gkind": gkind, "fallback": fallback, "git": use_git, "noise": {}, "licenses": [], "defects": [], "extra_used": []}
+    state = {"files": files, "gkind": gkind, "fallback": fallback, "git": use_git, "noise": {}, "licenses": [], "defects": ["same-base-name-elsewhere"] if twin else [], "extra_used": [], "twin": twin}
     # noise that must not be reported
     for nm in draw(st.lists(st.sampled_from(["LICENSE", "COPYING.md", "docs/LICENSE-MIT", "empty.py", "link.py", "sbom.spdx", "src/x.spdx.json", "ignored.log", "dangling.py", "linkdir"]), max_size=4, unique=True)):
         if nm == "ignored.log" and not use_git:
